@@ -14,7 +14,7 @@ PREDEF = [("SecureBoot", "global", [BS, RT]), ("SetupMode", "global", [BS, RT]),
           ("BootOrder", "global", [NV, BS, RT]), ("Boot0001", "global", [NV, BS, RT])] + \
          [(n, "loader", [BS, RT]) for n in ("LoaderTimeInitUSec", "LoaderTimeExecUSec", "LoaderDevicePartUUID", "LoaderConfigTimeout", "LoaderConfigTimeoutOneShot",
                                             "LoaderEntries", "LoaderEntryDefault", "LoaderEntryOneShot", "LoaderEntrySelected", "LoaderFeatures", "LoaderSystemToken")]
-VALS = ["empty", "d1", "d3", "dc", "big", "b4093"]
+VALS = ["empty", "d1", "d3", "dc", "big", "b4093", "huge"]      # huge: 70 000 bytes, more than 64 KiB
 
 
 def stored_variants(rng, want):
